@@ -5,8 +5,8 @@ import types
 from common import *  # noqa
 
 PROP = "C01"
-TABLES = ["Whitespace"]
-MODELS = [("c01", "Extract/ExC01.v", "run_C01")]
+TABLES = ["Whitespace", "C02_Patterns"]
+MODELS = [("c01", "Extract/ExC01.v", "run_C01x")]
 ALPHA = ["a", "B", " ", "\n", "界"]
 RAND_ALPHA = ["a", "b", "C", " ", " ", "\n", "\n", "\t", "\r", "界", "é"[1], "\U0001F600", "(", "x"]
 
@@ -15,7 +15,12 @@ OPNAMES = {1: "insert_text", 2: "delete_before_cursor", 3: "delete", 4: "newline
            9: "transform_current_line", 10: "transform_region", 11: "indent", 12: "unindent",
            13: "set_text", 14: "set_cursor_position", 15: "cursor_left", 16: "cursor_right",
            17: "backward-delete-char", 18: "delete-char", 19: "self-insert", 20: "transpose-chars",
-           21: "join_selected_lines"}
+           21: "join_selected_lines", 22: "case-word"}
+CASE_CMDS = ["uppercase-word", "downcase-word", "capitalize-word"]
+
+
+def case_F(kind, s):
+    return s.upper() if kind == 0 else s.lower() if kind == 1 else s.title()
 
 
 def apply_F(code, s):
@@ -89,6 +94,8 @@ def impl_step(b, op):
         get_by_name("self-insert").handler(make_event(b, op[2], unS(op[1])))
     elif k == 20:
         get_by_name("transpose-chars").handler(make_event(b))
+    elif k == 22:
+        get_by_name(CASE_CMDS[op[1]]).handler(make_event(b, op[2]))
     elif k == 21:
         from prompt_toolkit.selection import SelectionState
         b.selection_state = SelectionState(original_cursor_position=op[1])
@@ -227,6 +234,17 @@ def oracle_step(t0, c0, op, status, t1, c1, ret, views):
             return ("transpose-chars raised", "raise")
         if sorted(t1) != sorted(t0) or len([i for i in range(len(t0)) if t0[i] != t1[i]]) > 2:
             return ("transpose-chars: more than two characters changed", "transpose")
+    elif k == 22:
+        if status != 0:
+            return ("case command raised", "raise")
+        # each of the `arg` applications replaces a span directly after the cursor by its case image
+        # and moves the cursor behind it: so overall text' = before + F(after[:n]) + after[n:] for some n
+        # (F applied piecewise gives the same characters for upper/lower; for title we check piecewise below)
+        ns = [n for n in range(len(after) + 1)
+              if len(t1) == len(t0) and t1[:c0] == before and t1[c0 + n:] == after[n:]
+              and t1[c0:c0 + n].lower() == after[:n].lower() and c1 == c0 + n]
+        if not ns:
+            return ("case command: text' is not before + case-mapped span + rest of the text (something else changed)", "case-word")
     elif k == 21 and 0 <= op[1] <= len(t0):
         if status != 0:
             return ("join_selected_lines raised", "raise")
@@ -302,6 +320,9 @@ def single_ops(n_text):
     ops += [[13, S("")], [13, S("q\nr")], [14, -3], [14, 0], [14, 2], [14, 99]]
     for o in range(0, n_text + 1):
         ops += [[21, o, S(" ")], [21, o, S("")]]
+    for kind in (0, 1, 2):
+        for a in (-1, 0, 1, 2, 3):
+            ops.append([22, kind, a])
     return ops
 
 
@@ -317,9 +338,11 @@ def rand_text(rng, maxlen):
 
 
 def rand_op(rng, tlen):
-    k = rng.choice([1, 1, 1, 2, 2, 3, 3, 4, 5, 6, 7, 8, 9, 10, 11, 12, 13, 14, 15, 16, 17, 18, 19, 20, 21])
+    k = rng.choice([1, 1, 1, 2, 2, 3, 3, 4, 5, 6, 7, 8, 9, 10, 11, 12, 13, 14, 15, 16, 17, 18, 19, 20, 21, 22, 22])
     if k == 21:
         return [21, rng.randint(0, tlen), S(rng.choice([" ", "", ", "]))]
+    if k == 22:
+        return [22, rng.randint(0, 2), rng.choice([-1, 0, 1, 1, 2, 5])]
     cnt = lambda: rng.choice([-1, 0, 1, 1, 2, 3, tlen, tlen + 1, 10 ** 6])  # noqa
     if k == 1:
         return [1, S(rand_text(rng, 4)), rng.randint(0, 1), rng.randint(0, 1)]
@@ -380,7 +403,7 @@ def gen_cases(chk):
 def main(tier):
     chk = Check(PROP, tier)
     pr = chk.proofs("Props/C01.v", tables=TABLES)
-    okm, logm = build_model("c01", "Extract/ExC01.v", "run_C01", tables=TABLES)
+    okm, logm = build_model("c01", "Extract/ExC01.v", "run_C01x", tables=TABLES)
     if not okm:
         chk.violation("tie", "model does not build: " + logm[-400:], {"kind": "model-build"}, {"log": logm[-3000:]}, no_input=True)
         return chk.finish()
@@ -428,7 +451,7 @@ def main(tier):
     k = 1200 if chk.tier == "thorough" else 300
     idx = sorted(chk.rng.sample(range(len(cases)), min(k, len(cases))))
     pairs = [(cases[i], impl_results[i]) for i in idx]
-    bad, logs = vm_crosscheck(PROP, "run_C01", "Model.BufferEdit", pairs)
+    bad, logs = vm_crosscheck(PROP, "run_C01x", "Model.BufferEdit Model.C01_CaseWord", pairs)
     chk.coverage["vm_compute_crosschecked"] = len(pairs)
     model_bad = set(i for i, (a, m) in enumerate(zip(impl_results, model_results)) if sx_norm(a) != m)
     vm_bad = set(idx[b] for b in bad if isinstance(b, int))
